@@ -87,6 +87,10 @@ Definition spec_hist (U : list gen) (T : list entry) (h : hobs) : bool :=
       let rejs := rejected U (h_calls h) (h_obs h) in
       (* no call, refused or not, leaves anything pending *)
       h_clean h &&
+      (* no two of the modules the history handed out share a name (whatever their calls were: also calls whose arguments
+         are outside the modelled value grammar) *)
+      all_pairs (fun a b => negb (String.eqb (snd (fst a)) (snd (fst b)))) (h_final h) &&
+      (negb (h_exported h) || all_pairs (fun a b => negb (String.eqb (snd a) (snd b))) (h_final h)) &&
       (* the body of every accepted call ran exactly once; when nothing was refused no body ran twice at all (a refused
          call runs its body again when it is repeated - that is what the model says, compared below) *)
       forallb (fun a => Nat.eqb (count_key (a_key a) runs_h) 1) accs &&
